@@ -96,7 +96,7 @@ class ArraySystem:
         if reduced:
             evs += [('get', -1), ('get', 0), ('get', n - 1), ('get', n), ('set', 0, 'one'), ('set', -1, 'full'), ('set', n - 1, 'over'), ('set', 0, 'overz'),
                     ('set', -n, 'str'), ('sget', None, None, None), ('sget', None, None, -1), ('sset', None, None, None, 'equal'),
-                    ('sset', None, None, 2, 'bad-over@1'), ('sset', 1, None, None, 'short'), ('sset', None, None, -1, 'bad-type@0'),
+                    ('sset', None, None, 2, 'bad-over@1'), ('sset', 1, None, None, 'short'), ('sset', None, None, None, 'equal-gen'), ('sset', 1, None, 2, 'equal-tuple'), ('sset', None, None, -1, 'bad-type@0'),
                     ('sdel', None, None, None), ('sdel', -2, None, None), ('del', -1), ('del', 0), ('clear',), ('iter',), ('in', 'X'),
                     ('len',), ('close',), ('reopen',)]
             return evs
@@ -116,7 +116,7 @@ class ArraySystem:
             evs.append(('sdel', start, stop, step))
         for start, stop, step in itertools.product(ss, ss, self.steps):
             k = len(range(*slice(start, stop, step).indices(n)))
-            variants = ['short', 'equal', 'long', 'not-iterable', 'bytes-as-list', 'bad-beyond']
+            variants = ['short', 'equal', 'long', 'not-iterable', 'bytes-as-list', 'bad-beyond', 'equal-gen', 'equal-tuple']
             for j in range(k):
                 variants.append('bad-over@%d' % j)
                 variants.append('bad-type@%d' % j)
@@ -135,6 +135,10 @@ class ArraySystem:
             return [b'\x07'] * k
         if variant == 'long':
             return [self.Y] * (k + 1)
+        if variant == 'equal-gen':                 # a one-shot iterable: the values can be walked through once only
+            return (v for v in [self.Y if (i % 2) else b'\x07' for i in range(k)])
+        if variant == 'equal-tuple':
+            return tuple(self.Y if (i % 2) else b'\x07' for i in range(k))
         if variant == 'not-iterable':
             return 5
         if variant == 'bytes-as-list':
